@@ -92,6 +92,7 @@ def check_functions(model: Model, report: Report) -> None:
                     report.undecided("R11.3", site, f"{key}: {err}")
                     continue
                 probs: Dict[str, Tuple[str, str]] = {}
+                undecided_cells: set = set()
                 for run in runs:
                     calls = [e for e in run.ctx.log if isinstance(e, tuple) and e[0] == "extcall" and str(e[1]).split(".")[-1] in ("fullmatch", "search", "match", "findall", "finditer")]
                     checks = [e for e in run.ctx.log if isinstance(e, tuple) and e[0] == "extcall" and str(e[1]).endswith("check")]
@@ -132,6 +133,17 @@ def check_functions(model: Model, report: Report) -> None:
                             probs["invalid-pattern"] = ("R11.3", f"{mod}() {'calls the engine' if calls else 'returns ' + str(res)} for a pattern that is not a valid I-Regexp, expected false without evaluation")
                         continue
                     # valid I-Regexp string pattern
+                    if any(isinstance(k, tuple) and k[0] == "regex-compile" and v == "error" for k, v in run.ctx.world.items()):
+                        # the engine was consulted (it refused the pattern when asked to compile it)
+                        if res is not False:
+                            probs["engine-error"] = ("R11.4", f"{mod}() returns {res} when the engine rejects the pattern")
+                        continue
+                    compiled_calls = [e for e in run.ctx.log if isinstance(e, tuple) and e[0] == "compiled-call"]
+                    if not calls and compiled_calls:
+                        # the engine is consulted through a compiled pattern object (compile once, match many): which
+                        # pattern text and flags reach the engine is not followed through that object by this rule
+                        undecided_cells.add(f"{mod}() applies a compiled pattern object ({compiled_calls[0][1]}); entry point, pattern mapping and flags are not decided for this shape")
+                        continue
                     if not calls:
                         if sk == "str" and literal_shortcut(run, cname, p, s, res):
                             continue
@@ -166,6 +178,8 @@ def check_functions(model: Model, report: Report) -> None:
                 if probs:
                     for pk_, (rule, msg) in probs.items():
                         report.fail(rule, site, f"{key}:{pk_}", msg, file=fn.file, line=fn.line, what=key)
+                elif undecided_cells:
+                    report.undecided("R11.1", site, f"{key}: {sorted(undecided_cells)[0]}")
                 else:
                     report.ok("R11.3", site, key, detail={"paths": len(runs)})
         report.touched(site)
